@@ -328,62 +328,89 @@ Section Laid.
     - exact (InReg_widen W _ _ _ c0 B (IH c1 B X2 e He) L1 (Z.le_refl B)).
   Qed.
 
-  Lemma local_vars_born cA c0 B : c0 <= B -> forall es pl lastc,
+  (* a declared variable with its InitLoc *)
+  Lemma Born_of_InReg5 n l r flag il tb A B :
+    idok W l -> hi W l <= B -> InReg W r A B ->
+    match il with Some i => colok W i /\ hi W i <= B | None => True end ->
+    Born W A B (mkV5 n l r flag il tb).
+  Proof.
+    intros Hid Hh Hr Hil. pose proof (idok_lt W _ Hid). destruct Hid as [_ [_ [Hc _]]].
+    unfold Born, InitOK. cbn [v_loc v_ref v_init]. split; [lia|]. split; [lia|]. split; [destruct r; auto|exact Hil].
+  Qed.
+
+  Lemma local_vars_born cA c0 B il : c0 <= B ->
+    match il with Some i => colok W i /\ hi W i <= B | None => True end ->
+    forall es pl lastc,
     (forall e, In e es -> InReg W (ref_of_exp e) cA B) ->
     (forall p, In p pl -> idok W (snd p) /\ hi W (snd p) <= c0) ->
     InReg W lastc cA B ->
-    Forall (Born W cA B) (local_vars es pl lastc).
+    Forall (Born W cA B) (local_vars es pl lastc il).
   Proof.
-    intros HcB. induction es as [|e r IH]; intros pl lastc Hes Hp Hlast; cbn [local_vars].
+    intros HcB Hil. induction es as [|e r IH]; intros pl lastc Hes Hp Hlast; cbn [local_vars].
     - apply Forall_forall. intros v Hv. apply in_map_iff in Hv. destruct Hv as [p [<- Hin]].
-      destruct (Hp p Hin) as [Hid Hh]. apply Born_of_InReg; [exact Hid|zlia|exact Hlast].
+      destruct (Hp p Hin) as [Hid Hh]. apply Born_of_InReg5; [exact Hid|zlia|exact Hlast|exact Hil].
     - destruct pl as [|[n l] pl']; [constructor|].
       destruct (Hp (n, l) (or_introl eq_refl)) as [Hid Hh]. cbn [snd] in Hid, Hh.
       constructor.
-      + apply Born_of_InReg; [exact Hid|zlia|]. apply Hes. left. reflexivity.
+      + apply Born_of_InReg5; [exact Hid|zlia| |exact Hil]. apply Hes. left. reflexivity.
       + apply IH.
         * intros e0 He0. apply Hes. right. exact He0.
         * intros p Hin. apply Hp. right. exact Hin.
         * pose proof (Hes e (or_introl eq_refl)) as He. destruct e; cbn [InReg]; auto.
   Qed.
 
-  Lemma local_piece_gen (f : exp -> tT) (c : exp -> tC) : forall es (pl : list (list N * loc)) cA c0 B lastc st,
+  Lemma local_piece_gen (f : exp -> tT) (c : exp -> tC) : forall es (pl : list (list N * loc)) cA c0 B lastc il st,
     PieceE W (apply_all (map f es)) (cl_all (map (fun e => (f e, c e)) es)) c0 B ->
     chain W c0 (flat_map m_exp es) B -> (length es <= length pl)%nat ->
     (forall p, In p pl -> idok W (snd p) /\ hi W (snd p) <= c0) ->
     InReg W lastc cA c0 -> cA <= c0 ->
+    match il with Some i => colok W i /\ hi W i <= B | None => True end ->
     vss st <> [] -> G W (vss st) c0 B ->
     cl_local_loop (map (fun e => (e, f e, c e)) es) pl st = true /\
-    EvoS W cA B (vss st) (vss (local_loop (map (fun e => (e, f e)) es) pl lastc st)).
+    EvoS W cA B (vss st) (vss (local_loop (map (fun e => (e, f e)) es) pl lastc il st)).
   Proof.
-    intros es pl cA c0 B lastc st HP Hx Hlen Hp Hlast HcA Hne Hg.
+    intros es pl cA c0 B lastc il st HP Hx Hlen Hp Hlast HcA Hil Hne Hg.
     pose proof (chain_le W _ _ _ Hx) as HcB.
     destruct (HP st Hne Hg) as [P1 P2].
-    rewrite (cl_local_loop_shape f c es pl st Hlen), (local_loop_shape f es pl lastc st Hlen), local_adds_fold.
+    rewrite (cl_local_loop_shape f c es pl st Hlen), (local_loop_shape f es pl lastc il st Hlen), local_adds_fold.
     split; [exact P1|].
     destruct (vss st) as [|vs r] eqn:E; [contradiction|].
     pose proof (Evo_widen W _ _ _ _ _ _ P2 HcA (Z.le_refl B)) as P2'.
     inversion P2' as [|? vs1 ? r1 Hv1 Hr1 E0 E1]; subst.
     rewrite (vss_fold_add _ _ vs1 r1 (eq_sym E1)).
-    exists (rev (local_vars es pl lastc)), vs1. repeat split; auto.
-    apply Forall_rev. apply (local_vars_born cA c0 B HcB).
+    exists (rev (local_vars es pl lastc il)), vs1. repeat split; auto.
+    apply Forall_rev. apply (local_vars_born cA c0 B il HcB Hil).
     - intros e He. exact (InReg_widen W _ _ _ cA B (exps_inreg es c0 B Hx e He) HcA (Z.le_refl B)).
     - exact Hp.
     - exact (InReg_widen W _ _ _ cA B Hlast (Z.le_refl cA) HcB).
   Qed.
 
-  Lemma local_piece flv : forall es (pl : list (list N * loc)) cA c0 B lastc st,
+  (* the marks of a local statement behind the names: the initialiser list inside its region (when there is one) *)
+  Lemma local_marks_chain ns ls es l c0 b :
+    chain W c0 (region_marks (init_loc ns ls es l) (flat_map m_exp es)) b ->
+    exists c1 c2, c0 <= c1 /\ c2 <= b /\ chain W c1 (flat_map m_exp es) c2 /\
+                  match init_loc ns ls es l with Some i => colok W i /\ hi W i <= c2 | None => True end.
+  Proof.
+    destruct (init_loc ns ls es l) as [il|]; cbn [region_marks]; intros H.
+    - destruct (chain_region W _ _ _ _ H) as [Hc [H2 [H3 H4]]].
+      exists (lo W il), (hi W il). split; [exact H2|]. split; [exact H3|]. split; [exact H4|].
+      split; [exact Hc|apply Z.le_refl].
+    - exists c0, b. split; [apply Z.le_refl|]. split; [apply Z.le_refl|]. split; [exact H|exact I].
+  Qed.
+
+  Lemma local_piece flv : forall es (pl : list (list N * loc)) cA c0 B lastc il st,
     Forall Pe es -> forallb frag_exp es = true -> forallb tb_shp_exp es = true -> forallb (nfs_exp nm) es = true ->
     chain W c0 (flat_map m_exp es) B -> (length es <= length pl)%nat ->
     (forall p, In p pl -> idok W (snd p) /\ hi W (snd p) <= c0) ->
     InReg W lastc cA c0 -> cA <= c0 ->
+    match il with Some i => colok W i /\ hi W i <= B | None => True end ->
     vss st <> [] -> G W (vss st) c0 B ->
     cl_local_loop (map (fun e => (e, tr_exp flv e, cl_exp nm flv e)) es) pl st = true /\
-    EvoS W cA B (vss st) (vss (local_loop (map (fun e => (e, tr_exp flv e)) es) pl lastc st)).
+    EvoS W cA B (vss st) (vss (local_loop (map (fun e => (e, tr_exp flv e)) es) pl lastc il st)).
   Proof.
-    intros es pl cA c0 B lastc st He Hf Hs Hn Hx Hlen Hp Hlast HcA Hne Hg.
-    exact (local_piece_gen (fun e => tr_exp flv e) (fun e => cl_exp nm flv e) es pl cA c0 B lastc st
-                           (exps_piece flv es c0 B He Hf Hs Hn Hx) Hx Hlen Hp Hlast HcA Hne Hg).
+    intros es pl cA c0 B lastc il st He Hf Hs Hn Hx Hlen Hp Hlast HcA Hil Hne Hg.
+    exact (local_piece_gen (fun e => tr_exp flv e) (fun e => cl_exp nm flv e) es pl cA c0 B lastc il st
+                           (exps_piece flv es c0 B He Hf Hs Hn Hx) Hx Hlen Hp Hlast HcA Hil Hne Hg).
   Qed.
 
   Lemma stats_piece flv slv : forall ss a b,
